@@ -955,4 +955,57 @@ MUTANTS = [
       "                        (Some(s), Some(o)) if s > o => maybe_o = oiter.next(),\n                        (Some(s), Some(o)) if s == o => {\n                            maybe_o = oiter.next();\n                            maybe_s = siter.next();\n                            intersection.push(s);",
       "                        (Some(s), Some(o)) if s > o => maybe_o = oiter.next_back(),\n                        (Some(s), Some(o)) if s == o => {\n                            maybe_o = oiter.next();\n                            maybe_s = siter.next();\n                            intersection.push(s);",
       {"C18": "cursor-steps-forward", "C09": "cursor-steps-forward"}),
+    # ---- round 5: the slip is in a helper / conversion / trait impl the anchored code relies on ------
+    M("c20-compound-hash-own-hasher", ["C20", "C21"], "src/compound.rs",
+      "    fn compound_hash(&self, mut state: &mut dyn Hasher) {\n        self.hash(&mut state);\n    }",
+      "    fn compound_hash(&self, state: &mut dyn Hasher) {\n        let mut hasher = std::hash::BuildHasher::build_hasher(&std::collections::hash_map::RandomState::new());\n        self.hash(&mut hasher);\n        state.write_u64(hasher.finish());\n    }",
+      {"C20": "library-impls", "C21": "library-impls"}),
+    M("c09-labelling-sort-keyed-on-name", ["C09"], "src/state/reification.rs",
+      "                LTermInner::Var(id, _) => Some(*id),",
+      "                LTermInner::Var(_, name) => Some(*name),",
+      {"C09": "sort-key-is-the-variable-id"}),
+    M("c20-is-term-flipped", ["C20", "C01"], "src/compound.rs",
+      "        match self.as_term() {\n            Some(_) => true,\n            None => false,\n        }",
+      "        match self.as_term() {\n            Some(_) => false,\n            None => true,\n        }",
+      {"C20": "is_term", "C01": "is_term"}),
+    M("c21-user-terms-equal-when-different", ["C21"], "src/lterm.rs",
+      "(LTermInner::User(self_user), LTermInner::User(other_user)) => self_user == other_user,",
+      "(LTermInner::User(self_user), LTermInner::User(other_user)) => self_user != other_user,",
+      {"C21": "eq-hash"}),
+    M("c21-number-literal-eq-default-true", ["C21"], "src/lterm.rs",
+      "    fn eq(&self, other: &isize) -> bool {\n        match self.as_ref() {\n            LTermInner::Val(LValue::Number(x)) => x == other,\n            _ => false,",
+      "    fn eq(&self, other: &isize) -> bool {\n        match self.as_ref() {\n            LTermInner::Val(LValue::Number(x)) => x == other,\n            _ => true,",
+      {"C21": "literal-comparisons"}),
+    M("c23-minusfd-assert-unsatisfiable", ["C23"], "src/relation/clpfd/minusfd.rs",
+      "        assert!(u.is_var() || u.is_number());",
+      "        assert!(u.is_var() && u.is_number());",
+      {"C23": "precondition-asserts"}),
+    M("c19-rerun-only-if-extension-mentions-operand", ["C19", "C04"], "src/state/mod.rs",
+      "    fn process_extension_diseq(self, _extension: &SMap<U, E>) -> SResult<U, E> {\n        self.run_constraints()",
+      "    fn process_extension_diseq(self, extension: &SMap<U, E>) -> SResult<U, E> {\n        if self.cstore_ref().relevant(&extension.operands()).next().is_none() {\n            return Ok(self);\n        }\n        self.run_constraints()",
+      {"C19": "rerun-after-binding", "C04": "reruns"}),
+    M("c09-disj-depth-first-merge", ["C09", "C07", "C10"], "src/operator/disj.rs",
+      "        Stream::lazy_mplus(\n            LazyStream::pause(Box::new(state.clone()), self.goal_1.clone()),",
+      "        Stream::lazy_mplus_dfs(\n            LazyStream::pause(Box::new(state.clone()), self.goal_1.clone()),",
+      {"C09": "K3.disj", "C07": "K3.disj", "C10": "K3.disj"}),
+    M("c03-is-constrained-never", ["C03"], "src/lresult.rs",
+      "        self.constraints().any(|_| true)",
+      "        self.constraints().any(|_| false)",
+      {"C03": "iff-some-constraint"}),
+    M("c12-project-shallow-walk", ["C12", "C11"], "src/operator/project.rs",
+      "            v.project(|x| state.smap_ref().walk_star(x));",
+      "            v.project(|x| state.smap_ref().walk(x).clone());",
+      {"C12": "what-is-projected", "C11": "what-is-projected"}),
+    M("c08-conj-new-keeps-the-true", ["C08", "C13", "C06"], "src/operator/conj.rs",
+      "    pub fn new(goal_1: Goal<U, E>, goal_2: Goal<U, E>) -> Goal<U, E> {\n        if goal_1.is_succeed() && goal_2.is_succeed() {\n            return Goal::succeed();\n        }",
+      "    pub fn new(goal_1: Goal<U, E>, goal_2: Goal<U, E>) -> Goal<U, E> {\n        if goal_1.is_succeed() {\n            return goal_1;\n        }",
+      {"C08": "conj-new", "C13": "conj-new", "C06": "conj-new"}),
+    M("c17-infd-builds-sparse-directly", ["C17", "C18"], "src/relation/clpfd/infd.rs",
+      "    if u.is_list() {\n        let goals = u\n            .iter()\n            .map(|v| DomFd::new(v.clone(), FiniteDomain::from(domain)).cast_into())\n            .collect();\n        InferredConj::from_vec(goals)\n    } else {\n        DomFd::new(u, FiniteDomain::from(domain))\n    }\n}\n\npub fn infdrange",
+      "    if u.is_list() {\n        let shared = FiniteDomain::Sparse(domain.to_vec());\n        let goals = u\n            .iter()\n            .map(|v| DomFd::new(v.clone(), shared.clone()).cast_into())\n            .collect();\n        InferredConj::from_vec(goals)\n    } else {\n        DomFd::new(u, FiniteDomain::from(domain))\n    }\n}\n\npub fn infdrange",
+      {"C17": "builds-Sparse-directly", "C18": "builds-Sparse-directly"}),
+    M("silent-is-term-via-is-some", ["C20", "C01"], "src/compound.rs",
+      "        match self.as_term() {\n            Some(_) => true,\n            None => false,\n        }",
+      "        self.as_term().is_some()",
+      silent=True),
 ]
